@@ -193,6 +193,11 @@ inline uint64_t counter_value(const std::string& name) {
 ////////////////////////////////////////////////////////////////////////////////
 // Progress + per-thread state (used by the watchdog and the stuck rule)
 inline std::atomic<uint64_t>& progress_counter() { static std::atomic<uint64_t> p {0}; return p; }
+// Harness threads announced (before creation) vs. actually started: the stuck rule never
+// fires while a thread of the episode has not even begun (slow thread creation on a loaded box).
+inline std::atomic<uint64_t>& threads_expected() { static std::atomic<uint64_t> p {0}; return p; }
+inline std::atomic<uint64_t>& threads_started() { static std::atomic<uint64_t> p {0}; return p; }
+inline void expect_threads(uint64_t n) { threads_expected().fetch_add(n, std::memory_order_relaxed); }
 inline void progress(uint64_t n = 1) { progress_counter().fetch_add(n, std::memory_order_relaxed); }
 
 struct ThreadState {
@@ -249,6 +254,7 @@ inline void thread_begin(uint64_t episode_seed, int logical) {
   auto* s = my_state();
   s->logical.store(logical, std::memory_order_relaxed);
   s->op.store(nullptr, std::memory_order_relaxed);
+  threads_started().fetch_add(1, std::memory_order_relaxed);
 }
 inline void thread_end() {
   auto*& s = tl_state();
@@ -626,12 +632,73 @@ inline bool any_sleeper_with_changed_word() {
   return false;
 }
 
+// Scheduler view of one registered thread (for the starvation test of the stuck rule).
+struct SchedSample {
+  int tid = 0;
+  uint64_t run_ns = 0;   // CPU time received so far (schedstat field 1)
+  int running = 0;       // samples in which the thread was in user space / runnable
+};
+inline uint64_t thread_run_ns(int tid) {
+  char p[64], b[128];
+  snprintf(p, sizeof p, "/proc/self/task/%d/schedstat", tid);
+  int fd = ::open(p, O_RDONLY);
+  if (fd < 0) return 0;
+  ssize_t n = ::read(fd, b, sizeof b - 1);
+  ::close(fd);
+  if (n <= 0) return 0;
+  b[n] = 0;
+  return strtoull(b, nullptr, 10);
+}
+inline bool thread_in_userspace(int tid) {
+  char p[64], b[32];
+  snprintf(p, sizeof p, "/proc/self/task/%d/syscall", tid);
+  int fd = ::open(p, O_RDONLY);
+  if (fd < 0) return false;  // thread gone
+  ssize_t n = ::read(fd, b, sizeof b - 1);
+  ::close(fd);
+  if (n <= 0) return false;
+  b[n] = 0;
+  return strncmp(b, "running", 7) == 0;
+}
+// Confirmation window of the stuck rule (DESIGN §2.6): returns "" when the silence can be
+// blamed on the program (every announced thread started; each registered thread is either
+// blocked in the kernel or received the CPU time it asked for), otherwise the reason why the
+// verdict must be postponed (threads not started yet / threads runnable but starved of CPU).
+inline std::string starvation_reason(double window_s = 2.0) {
+  uint64_t exp = threads_expected().load(std::memory_order_relaxed);
+  uint64_t st = threads_started().load(std::memory_order_relaxed);
+  if (st < exp) return fmt("only %lu of %lu announced threads have started", (unsigned long)st, (unsigned long)exp);
+  std::vector<SchedSample> v;
+  auto* all = thread_states();
+  for (int i = 0; i < kMaxThreads; ++i) {
+    int tid = all[i].tid.load(std::memory_order_relaxed);
+    if (tid != 0) { SchedSample x; x.tid = tid; x.run_ns = thread_run_ns(tid); v.push_back(x); }
+  }
+  const int kSamples = 40;
+  uint64_t dt_us = uint64_t(window_s * 1e6 / kSamples);
+  double t0 = now_s();
+  for (int k = 0; k < kSamples; ++k) {
+    raw_sleep_us(dt_us);
+    for (auto& x : v) x.running += thread_in_userspace(x.tid) ? 1 : 0;
+  }
+  double elapsed = now_s() - t0;
+  for (auto& x : v) {
+    double wanted = elapsed * double(x.running) / kSamples;            // time spent runnable
+    double got = double(thread_run_ns(x.tid) - x.run_ns) * 1e-9;       // CPU time received
+    if (wanted > 0.2 && got < 0.4 * wanted)
+      return fmt("thread %d was runnable for %.2fs of a %.2fs window but received only %.2fs of CPU (machine overloaded)",
+                 x.tid, wanted, elapsed, got);
+  }
+  return "";
+}
+
 struct Watchdog {
   std::thread th;
   std::atomic<bool> stop {false};
   std::atomic<bool> armed {false};
   double grace_s = 10;
   double hard_cap_s = 3000;
+  int postponed = 0, max_postpone = 20;
   // Only protocols in which every change of a futex word owes its sleepers a
   // wake (bounded queue, topic) may turn this on; Future's waiter count changes
   // the word legitimately.
@@ -656,12 +723,25 @@ struct Watchdog {
         if (cur != last || !armed.load(std::memory_order_relaxed)) {
           last = cur;
           last_change = t;
+          postponed = 0;
         }
         if (t - t_start > hard_cap_s) {
           inconclusive(fmt("hard wall-clock cap %.0fs reached while progress was still moving", hard_cap_s));
           finish_and_exit_now();
         }
         if (t - last_change > grace_s) {
+          // postpone the verdict while the silence can be blamed on the machine
+          std::string why = starvation_reason();
+          if (!why.empty() || progress_counter().load(std::memory_order_relaxed) != last) {
+            if (++postponed > max_postpone) {
+              inconclusive("no progress, but the stuck rule could not be confirmed: " + why);
+              fprintf(stderr, "%s\n", thread_dump().c_str());
+              finish_and_exit_now();
+            }
+            VF_COUNT("watchdog:verdict_postponed");
+            last_change = now_s() - grace_s / 2;  // look again after half a grace period
+            continue;
+          }
           std::string ctx;
           { std::lock_guard<std::mutex> g(ctx_mu); ctx = context; }
           std::string dump = thread_dump();
@@ -732,6 +812,7 @@ template <typename F>
 inline void run_threads(int n, uint64_t episode_seed, F&& body) {
   std::vector<std::thread> ts;
   ts.reserve(size_t(n));
+  expect_threads(uint64_t(n));
   for (int i = 0; i < n; ++i) {
     ts.emplace_back([&, i] {
       thread_begin(episode_seed, i);
@@ -748,7 +829,10 @@ inline void pin_cpus(int k) {
   CPU_ZERO(&set);
   int ncpu = int(sysconf(_SC_NPROCESSORS_ONLN));
   if (k <= 0 || k > ncpu) k = ncpu;
-  for (int i = 0; i < k; ++i) CPU_SET(i, &set);
+  // k consecutive CPUs starting at a per-process offset: concurrently running harness
+  // processes (three sanitizer variants, several checks) must not all pile up on CPU 0.
+  int first = (k == ncpu) ? 0 : int((uint64_t(getpid()) * 2654435761u >> 7) % uint64_t(ncpu));
+  for (int i = 0; i < k; ++i) CPU_SET((first + i) % ncpu, &set);
   sched_setaffinity(0, sizeof set, &set);
 }
 
